@@ -28,6 +28,9 @@ func alphabetMsg(i int, uuid string) *message.Message {
 		m.Payload = nil
 	case 1:
 		m.Metadata.Set("k", "v")
+		m.Metadata["empty"] = ""
+		// payloads are bytes, not text: a gzip header, a lone continuation byte, a NUL
+		m.Payload = []byte{0x1f, 0x8b, 0x08, 0x00, 0x80, 0xff, 'x'}
 	case 2:
 		m.Metadata.Set(requeuer.RetriesKey, "0")
 	case 3:
